@@ -27,6 +27,7 @@ package factory
 // A-VALIDATOR (assumed): govalidator.ValidateStruct returns a nil error only for a struct that satisfies every rule,
 // in particular the "required" pointer fields are non-nil.
 //@ func ReadConfig(cfgPath string) (cfg *Config, err error)
+//@   locals cfg:*factory.Config | err:error
 //@   ensures [err]  err != nil ==> cfg == nil
 //@   ensures [ok]   err == nil ==> cfg != nil && fresh(cfg)
 //@   ensures [resolved] err == nil ==> cfg.Pfcp != nil && ok(net.ResolveIPAddr("ip4", cfg.Pfcp.NodeID))
@@ -44,6 +45,7 @@ package factory
 //@     assert [nodeid] arg0 == "ip4" && arg1 == cfg.Pfcp.NodeID
 
 //@ func InitConfigFactory(f string, cfg *Config) (err error)
+//@   locals content:[]byte | err:error | yamlErr:error
 //@   requires cfg != nil
 //@   modifies *
 //@   serves C20 C07
